@@ -13,8 +13,11 @@ def _infix(run, g, np, basis, n):
     run.add_tlc(res, "infix_%s_n%d" % (name, n))
     bad = 0
     for c in res["json"]:
-        _, _, tree = g.check_tree(np.array(c["shape"]))
-        got = g.node_to_string(0, tree, c["labels"])
+        try:
+            _, _, tree = g.check_tree(np.array(c["shape"]))
+            got = g.node_to_string(0, tree, c["labels"])
+        except Exception as ex:
+            got = "<raised %r>" % (ex,)
         if got != c["infix"] and bad < 5:
             bad += 1
             run.violation("infix:%s:%s" % (name, " ".join(c["labels"])),
